@@ -12,7 +12,8 @@ def make_spec(g, allow):
     r = g.r
     h = gen_history(g, allow)
     spec = dict(cfgs=h.cfgs, execs=h.execs, flags=set(h.flags), recmode=r.choice(['', '', 'true']),
-                modes=r.sample(REPLAY_MODES, 3), pre=[], nest=gen_nest(r, h.execs, 0.3), edit=suites.edit_choice(r, h.execs), count=1 if any(a in allow for a in ('long', 'big', 'many')) else r.choice([1, 1, 1, 2, 3, 3, 4]))
+                modes=r.sample(REPLAY_MODES, 3), pre=[], nest=gen_nest(r, h.execs, 0.3), edit=suites.edit_choice(r, h.execs), count=1 if any(a in allow for a in ('long', 'big', 'many')) else r.choice([1, 1, 1, 2, 3, 3, 4]),
+                updround=(r.randrange(1, 1 << 30) if r.random() < 0.3 and not any(a in allow for a in ('long', 'big', 'shadow')) else 0))
     if r.random() < 0.4:
         # the earlier history is recorded once and never replayed, so ITS values may end lines with a
         # carriage return (raw HTTP dumps, CSV): such entries sit EARLIER in the files than the
@@ -59,6 +60,28 @@ def render(tag, spec):
     if spec.get('crlf'):
         for op in suites.crlf_ops(spec['cfgs'], spec['crlf']):
             w.add(op)
+    repl = {}
+    if spec.get('updround'):
+        # an updating run in between: some values changed (now and then to a text ending in a newline) and are
+        # re-recorded through the UPDATE path; what is replayed afterwards is what that run recorded
+        from suites import mutate_call
+        g2 = Gen(spec['updround'])
+        w.add('reset')
+        w.add(mode_line(False, 'true'))
+        base3 = texec
+
+        def upd_call(i, k, cfgno, c, te):
+            m = None
+            if c.kind in ('snap', 'yaml') and g2.r.random() < 0.6:
+                m, _ = mutate_call(g2, c)
+                if m is not None and c.kind == 'snap' and not isinstance(m.payload, (list, tuple)) and g2.r.random() < 0.5:
+                    m = Call('snap', m.payload + b'\n')
+            idx = w.add((m or c).op(cfgno, te))
+            if m is not None:
+                repl[(i, k)] = m
+                rec_idx[i][k] = idx
+        emit_nested(w, spec['execs'], spec.get('nest', {}), lambda i: base3 + i + 1, upd_call)
+        texec = base3 + len(spec['execs'])
     ref = w.add('fsdump')
     for ci, upd in spec['modes']:
         w.add('reset')
@@ -74,7 +97,7 @@ def render(tag, spec):
                 if [k for k, _ in rec.events] != ['L']:
                     return None
                 return exp_silent(line, raw, ww)
-            w.add(c.op(cfgno, te), ('replay-silent', exp))
+            w.add(repl.get((i, k), c).op(cfgno, te), ('replay-silent', exp))
         # the same calls in the same per-test order; the interleaving of tests is the same too; the whole round
         # once, twice or three times in the SAME process (go test -count=N): every execution of a test
         # addresses the slots 1..n again
